@@ -26,7 +26,8 @@ RULE = (
     "the tree equals the reading of the expected per-node result and no text node carries TAB/LF or an "
     "un-encoded space run; search/search_first/search_all/match/text_at agree with re on the ODF reading of "
     "the root. A third of the replace calls are made on a span or link that sits inside the tree (its tail "
-    "may match too): only its own content may change or count, the whole tree is compared. The library entry points of the odfdo-replace and odfdo-highlight scripts are run on whole "
+    "may match too): only its own content may change or count, the whole tree is compared. In 30% of the cases "
+    "the three calls follow one another on the same wrapper object (search, replace, search again). The library entry points of the odfdo-replace and odfdo-highlight scripts are run on whole "
     "generated documents and compared with the same model (text nodes / highlighted character ranges). "
     "Class = (call, pattern kind, where matches fall: text / tail / inside span / several nodes, "
     "formatted, replacement kind, root tag)."
@@ -121,13 +122,14 @@ def skeleton(n):
     return [(e.tag, tuple(sorted(e.attrib.items()))) for e in n.iter() if isinstance(e.tag, str)]
 
 
-def judge(root_xml, call, res=None):
+def judge(root_xml, call, res=None, el=None):
     """call = {"fn": "replace"|"search"|..., "pattern":…, "pkind":…, "new":…, "rkind":…, "formatted": bool}
     -> (violations [(mechanism, detail, known)], class key)"""
     from odfdo import Element
 
-    el = Element.from_tag(root_xml)
-    n = c09.node(el)
+    if el is None:
+        el = Element.from_tag(root_xml)
+    n = c09.node(el)  # (a chain of calls works on one and the same wrapper object: every call is judged on its current state)
     rx = re.compile(call["pattern"])
     out = []
     has_link = n.find(".//" + TX + "a") is not None or n.tag == TX + "a"
@@ -250,13 +252,28 @@ def run(ctx, res):
     for c in range(CASES[ctx.tier]):
         rng = ctx.rng(c)
         xml = gen_root(rng)
+        chain = rng.random() < 0.3  # the calls follow one another on the same object (search, replace, search again ...)
+        live = None
+        if chain:
+            from odfdo import Element
+
+            live = Element.from_tag(xml)
+        calls_done = []
         for _ in range(3):
             call = gen_call(rng)
+            if chain:
+                call.pop("target", None)
+                if call["fn"] == "replace" and call.get("new") is not None and call.get("rkind") not in ("literal", "backref"):
+                    # the next call of the chain must start from a tree in white-space normal form
+                    call["rkind"], call["new"] = rng.choice([("literal", "X"), ("backref", r"\g<0>z"), ("literal", "quux")])
             if call.get("formatted") and call.get("new") is not None and "<text:a " in xml:
                 # formatting is documented for text owned by a paragraph, heading or span only
                 call["formatted"] = False
+            calls_done.append(call)
             try:
-                v, key = judge(xml, call)
+                v, key = judge(xml, call, el=live)
+                if chain:
+                    key = tuple(key) + ("chained",)
             except Exception as e:
                 import traceback
 
@@ -264,12 +281,20 @@ def run(ctx, res):
             res.judge()
             res.cls(key, True)
             for m, d, fid in v:
-                res.violation(m, dict(d, call=call, xml=xml[xml.index(">") + 1 :][-500:]), {"xml": xml, "call": call}, known=fid)
+                res.violation(m + (":chained" if chain else ""), dict(d, call=call, xml=xml[xml.index(">") + 1 :][-500:]), {"xml": xml, "call": call, "chain": list(calls_done) if chain else None}, known=fid)
         if c < 2:
             res.sample({"xml": xml[xml.index(">") + 1 :][-300:], "call": call})
 
 
 def replay(case):
+    if case.get("chain"):
+        from odfdo import Element
+
+        live = Element.from_tag(case["xml"])
+        v = []
+        for call in case["chain"]:
+            v, _k = judge(case["xml"], call, el=live)
+        return [{"mechanism": m + ":chained", "detail": d, "known": fid} for m, d, fid in v]
     v, _k = judge(case["xml"], case["call"])
     return [{"mechanism": m, "detail": d, "known": fid} for m, d, fid in v]
 
